@@ -41,6 +41,9 @@ CHECKS = {
  "C05": dict(text="SemGen.tla generates the format-free fragment of the property (leaves, depth-1 constructors, nested compounds, recursive / mutually recursive / uninhabited named types) and the state machine over ordered pairs; SemLevel.tla defines inclusion of value sets: Sub(A, B) = every exact witness of A (over the abstraction of mentioned literals, keys and lengths plus fresh ones) is a structural member of B, with TLC-checked laws (witness soundness, reflexivity, completeness lemma against larger caps and one more unfolding). Every ordered pair is decided by the real engine through its public API (to_sem_type, is_subtype, is_same_type; child process with watchdog) and, for a seeded sample, by compiling `A extends B ? 1 : 2`; Trace_Sub.tla recomputes inclusion and compares.",
              ref="4/C05", note="Trusted: TLC; the witness abstraction (exact for the depth-1 fragment, lemma-checked for the rest); an Err from the engine ('recursive type' for a recursive alias whose body is a union) is the engine declining, not a decision.",
              tech="TLC-enumerated type pairs + set-theoretic reference in TLA+; engine answers validated as a trace by TLC"),
+ "C06": dict(text="Decision-diagram layer: Bdd.tla transcribes from_node / union / intersect / diff / complement and bdd_to_dnf / dnf_to_bdd as a two-register state machine; TLC checks on every reachable pair of diagrams (2 atoms exhaustively; 3 atoms exhaustively in the thorough tier; 3 and 4 atoms by seeded simulation under a node bound) that each operation denotes the Boolean operation under all truth assignments and that the normal forms preserve meaning; every emitted state is replayed on the real BddOps and Trace_Bdd.tla evaluates the REAL results under all assignments (structural differences with equal meaning are reported as drift of the transcription). Semantic-type layer: for sampled ordered pairs of the SemGen fragment the engine's to_sem_type, union, intersect, diff and complement are dumped (ComplexSemType + atom tables) and Trace_Ops.tla evaluates the independent membership function SemDump!DMem over exact witnesses of both operands plus fixed extras, under the open and the exact reading of mapping atoms, and checks that the operand dumps mean what the source types mean.",
+             ref="4/C06", note="Trusted: TLC; my transcription Bdd.tla (validated against the real code on every replayed state); the SemDump reading of atoms; formats are outside the fragment.",
+             tech="TLC model checking of the transcribed BDD algebra + replay on BddOps + TLA+ membership function evaluated on dumped engine results"),
 }
 NA = []
 def main():
